@@ -81,9 +81,10 @@ func (h *Handler) Listen(s *xmpp.Session) *Listener {
 		return l
 	}
 	l = &Listener{
-		s: s,
-		h: h,
-		c: make(chan *Conn),
+		s:    s,
+		h:    h,
+		c:    make(chan *Conn),
+		done: make(chan struct{}),
 	}
 	h.l[addrStr] = l
 	return l
@@ -191,7 +192,12 @@ func handleOpen(h *Handler, iq openIQ, e xmlstream.Encoder) error {
 	if ok {
 		return nil
 	}
-	l.c <- conn
+	select {
+	case l.c <- conn:
+	case <-l.done:
+		// The listener was closed before anybody accepted the stream.
+		h.rmStream(iq.Open.SID)
+	}
 	return nil
 }
 
